@@ -12,5 +12,7 @@ for p in "$@"; do
   nv=$(echo "$out" | grep -c "^VIOLATION")
   echo "seed=$seed prop=$p violations=$nv $(echo "$out" | grep -c CHECK-BROKEN | sed 's/^0$//;s/^[1-9].*/BROKEN/')"
   echo "$out" | grep -A1 "^VIOLATION" | grep "^  " | head -${MAXSHOW:-4}
+  sout=$(REPO=$wt STANDIN_NO_EVIDENCE=1 /verif/standins/run.sh $p quick 2>&1)
+  if echo "$sout" | grep -q "^VIOLATION"; then echo "  standin: $(echo "$sout" | grep -A1 '^VIOLATION' | tail -1 | cut -c1-200)"; fi
 done
 rm -rf /var/tmp/verif-try-out
